@@ -112,7 +112,8 @@ def fit_feature(feature, df_feature, str_nan):
         # checking for string values already in the order
         if str_value not in values_order:
             values_order.append(str_value)  # adding string value to the order
-            values_order.group(value, str_value)  # grouping integer value into the string value
+        # grouping integer value into the string value (that may already exist in the data)
+        values_order.group(value, str_value)
 
     # adding str_nan
     if any(df_feature.isna()):
